@@ -78,6 +78,8 @@ def _round_half_even_to_int(x):
         return core.cast(x.rint(), core.DTI)
     if isinstance(x, EFP):
         return SInt(z3.ToInt(x.rint().v))
+    if isinstance(x, XR):
+        return EFP(x.v).__round__()
     raise NotModelled('rounding of %r' % type(x))
 
 
@@ -93,6 +95,10 @@ def _trunc_parts(x):
     if isinstance(x, EFP):
         i = x.trunc()
         return EFP(x.v - i.v), i
+    if isinstance(x, XR):
+        # exact-real mode: floats are real numbers, every step of the conversion is exact
+        i = EFP(x.v).trunc()
+        return XR(x.v - i.v), XR(i.v)
     raise NotModelled('modf of %r' % type(x))
 
 
@@ -102,6 +108,8 @@ def _to_int(x):
     if isinstance(x, SFP):
         return core.cast(x, core.DTI)
     if isinstance(x, EFP):
+        return core.cast(x, core.DTI)
+    if isinstance(x, XR):
         return core.cast(x, core.DTI)
     return x
 
@@ -332,7 +340,13 @@ class datetime:
             # _PyTime_DoubleToDenominator(d, &sec, &numerator, 1e6, ROUND_HALF_EVEN)
             frac, ip = _trunc_parts(t)
             fp = frac * 1e6
-            if isinstance(fp, SFP):
+            if isinstance(fp, XR):
+                fr = EFP(fp.v).rint()
+                sec = SInt(z3.ToInt(ip.v))
+                num = SInt(z3.ToInt(fr.v))
+                carry_up = fr >= 1e6
+                carry_dn = fr < 0.0
+            elif isinstance(fp, SFP):
                 fr = fp.rint()
                 sec = core.cast(ip, core.DTI)
                 num = core.cast(fr, core.DTI)
